@@ -56,6 +56,15 @@ def gen_cases(ctx):
             c["orphan_cap"] = rng.choice([1, 2])
         if rng.random() < 0.15:
             c["lib"] = sorted(rng.randrange(0, 3) for _ in c["arrivals"])
+        if rng.random() < 0.25:            # scripted consensus pre-checks (timestamp: transient, sign: cached)
+            c["pre"] = [rng.choice(["ok", "ok", "ok", "ts", "sign"]) for _ in c["arrivals"]]
+            c["arrivals"] = c["arrivals"] + [a for a in c["arrivals"] if rng.random() < 0.5]     # deliver some again
+            c["pre"] += ["ok"] * (len(c["arrivals"]) - len(c["pre"]))
+            if "lib" in c:
+                c["lib"] += [c["lib"][-1]] * (len(c["arrivals"]) - len(c["lib"]))
+        if rng.random() < 0.25:            # some blocks are handed over by the node's own block factory
+            kind = {b["name"]: b.get("bad", "") for b in blocks}
+            c["own"] = [(kind[a] in ("", "root")) and rng.random() < 0.5 for a in c["arrivals"]]
         cases.append(c)
     # structured two-branch families (reorg geometry)
     fam = []
@@ -98,6 +107,17 @@ def gen_cases(ctx):
 def classify(case, out):
     """Direct-predicate failures of a case -> (key, what) or None."""
     preds = [(i, p) for i, st in enumerate(out["steps"]) for p in st["pred"]]
+    # P9: a rejection for a transient reason (future timestamp, stale produced block) must not touch the node
+    prev = None
+    for i, st in enumerate(out["steps"]):
+        nm = st["arrive"]
+        transient = st["res"] == "err" and (st.get("pre") == "ts" or "becomes stale" in st["err"])
+        if transient and not preds:
+            if st["bad"][nm]:
+                return "C05:transient-rejection-cached", "block %s rejected for a transient reason (%s) is put into errBlocks at step %d" % (nm, st["err"][:40], i)
+            if prev is not None and any(st[k] != prev[k] for k in ("best", "heights", "stored", "sdbroot", "orphans", "rawtx")):
+                return "C05:transient-rejection-mutates", "a transient rejection changed the node at step %d" % i
+        prev = st
     if not preds:
         # P8: no query of the public surface may panic
         for i, st in enumerate(out["steps"]):
